@@ -155,6 +155,11 @@ def g_commute(ctx, rng, i):
         if excs[0] is not None and excs[1] is not None:
             ctx.skip(monitor, "both sides raise (degenerate configuration)")
             return
+        if (excs[0] is not None or excs[1] is not None) and cond > 1e3:
+            # an ill-conditioned (nearly singular) matrix blows the image representatives up until the library's absolute dependence /
+            # coplanarity tolerances decide inside rounding noise: not judged (the value comparison below has a cond**2 tolerance for the same reason)
+            ctx.skip(monitor, "one side raises for an ill-conditioned transformation (condition number > 1e3)")
+            return
         if excs[0] is not None or excs[1] is not None:
             e = excs[0] or excs[1]
             ctx.judge(monitor, False, ops, what=f"{what}: the {'left' if excs[0] is not None else 'right'} side raises {type(e).__name__}: {str(e)[:80]}, the other side returns",
